@@ -20,7 +20,8 @@ Definition tssk : cons_state := {| cs_type := TSS; cs_ts := 0; cs_root := []; cs
 Definition prop (c : client_state) (k : cons_state) : proposal := {| p_name := name; p_client := c; p_cons := k; p_validate := true |}.
 
 Definition with_flags (a b c d e f : bool) : cfg :=
-  {| f_toggle_new := a; f_tss_height := b; f_upgrade_tss_nocons := c; f_tm_upgrade_meta := d; f_toggle_clear := e; f_cons_type_check := f |}.
+  {| f_toggle_new := a; f_tss_height := b; f_upgrade_tss_nocons := c; f_tm_upgrade_meta := d; f_toggle_clear := e; f_cons_type_check := f;
+     f_eth_root_check := true; f_eth_rev_check := true; f_eth_old_header := true |}.
 
 (** D11 (pinned ToggleClient ran the OLD client state's Initialize).
     TSS -> Tendermint "succeeds", but no processed time is recorded: an honest proof at the installed height
